@@ -123,7 +123,7 @@ CHECKS = {
    design="4 (C14), 3.8"),
  "C16": dict(
    level="model_checking",
-   text="The interleaving part of the crash overlay is carried by the modules with a panic / leak flag (FrpsGroups NoPanic: double close of the hand-off channel, FrpsWorkPool NoLeak, NameTable), exhaustively checked by TLC; Crash fixes the message alphabet (18 types x boundary classes x before / after login). A sacrificial process runs a real frps and sends the whole alphabet from several connections at once (a second one runs a real frpc against a scripted server that sends the alphabet as login answer, on the control channel, as answer to work and visitor connections), followed after every batch by a liveness probe (fresh login + registration + tunnel connect), plus concurrent xtcp register / close against pre-check requests; eight stress scenarios of the other modules (gate-scheduled races, floods, name races) run in sacrificial processes of their own; exit status, stderr (panic: / fatal error:) and unanswered requests (stalled message handling) are classified and judged by TLC (Trace_Crash). Thorough tier builds with the race detector.",
+   text="The interleaving part of the crash overlay is carried by the modules with a panic / leak flag (FrpsGroups NoPanic: double close of the hand-off channel, FrpsWorkPool NoLeak, NameTable), exhaustively checked by TLC; Crash fixes the message alphabet (18 types x boundary classes x before / after login). A sacrificial process runs a real frps and sends the whole alphabet from several connections at once (a second one runs a real frpc against a scripted server that sends the alphabet as login answer, on the control channel, as answer to work and visitor connections), followed after every batch by a liveness probe (fresh login + registration + tunnel connect), plus concurrent xtcp register / close against pre-check requests; eight stress scenarios of the other modules (gate-scheduled races, floods, name races) run in sacrificial processes of their own; exit status, stderr (panic: / fatal error:) and unanswered requests (stalled message handling) are classified and judged by TLC (Trace_Crash). Thorough tier builds with the race detector, whose reports are recorded in the evidence but not judged (a data race is not by itself a crash or a wedge; the detector also reports the recovered close-versus-send on the work-connection channel).",
    note="Trusted: TLC, process exit classification. Field values outside the enumerated classes are not covered; the frpc run uses TLS and mux off.",
    technique="TLA+ crash overlay (NoPanic / NoLeak invariants model-checked in FrpsGroups / FrpsWorkPool, alphabet in Crash) + sacrificial-process execution of the alphabet and of stress scenarios, judged by TLC (Trace_Crash)",
    design="4 (C16), 3.9"),
